@@ -232,6 +232,34 @@ def check_cast_tables(r, T, rule="R5.6"):
             mk, mv = re.fullmatch(r"numpy\.([a-z]+?)(\d+)", k), re.fullmatch(r"numpy\.([a-z]+?)(\d+)", v)
             ok = bool(mk and mv and mk.group(1) == mv.group(1) and int(mv.group(2)) == int(mk.group(2)) * factor)
             r.ob(rule, f"{T.rel}::{fname}[{k}]", ok, f"{fname} maps {k} to {v}: not the same family at {'twice' if factor == 2 else 'half'} the width", loc(T.rel, dicts[0]))
+    # every return of a cast printer wraps the *printed operand* (target.tostring(x)) in the new type: the operand keeps its own
+    # type inside the cast.  A literal re-materialised in the new type (make_constant(expr, x.operands[0])) skips the rounding to
+    # the narrower type that the graph node upcast(constant(0.1, x: float32)) denotes.
+    for fname in ("upcast_func", "downcast_func"):
+        f = T.repo.func(T.rel, fname)
+        # the operand: the name unpacked from expr.operands
+        opn = None
+        for st in f.body:
+            if isinstance(st, ast.Assign) and isinstance(st.targets[0], ast.Tuple) and len(st.targets[0].elts) == 1 and norm_src(st.value).endswith(".operands"):
+                opn = st.targets[0].elts[0].id
+        if opn is None:
+            raise AnalysisError(f"{T.rel}::{fname}: `(x,) = expr.operands` not found")
+        printed = {st.targets[0].id for st in ast.walk(f) if isinstance(st, ast.Assign) and isinstance(st.targets[0], ast.Name) and isinstance(st.value, ast.Call)
+                   and (call_name(st.value) or "").endswith("tostring") and st.value.args and dotted(st.value.args[0]) == opn}
+        n_ret = 0
+        for rt in [n for n in ast.walk(f) if isinstance(n, ast.Return) and n.value is not None]:
+            n_ret += 1
+            v = rt.value
+            ok = False
+            if isinstance(v, ast.JoinedStr):
+                fvs = [x.value for x in v.values if isinstance(x, ast.FormattedValue)]
+                inner = [x for x in fvs if (isinstance(x, ast.Name) and x.id in printed) or (isinstance(x, ast.Call) and (call_name(x) or "").endswith("tostring") and x.args and dotted(x.args[0]) == opn)]
+                ok = len(inner) == 1
+            r.ob(rule, f"{T.rel}::{fname} return wraps the printed operand", ok,
+                 f"`{norm_src(v)[:90]}` does not print the operand through target.tostring({opn}) inside the new type: a literal operand then loses the cast to its "
+                 "own (narrower) type, e.g. numpy.float64(0.1) instead of numpy.float64(numpy.float32(0.1))", loc(T.rel, rt))
+        if n_ret == 0:
+            raise AnalysisError(f"{T.rel}::{fname}: no return statement")
     up, down = tables["upcast_func"], tables["downcast_func"]
     for k, v in up.items():
         if v in down:
